@@ -169,6 +169,8 @@ def check_case(chk, probe, model, case, moves, ns, rng, dist):
                 chk.tie_break("correspondence:to_listing", "the model panics where to_listing succeeds", dict(replay, n=n))
                 continue
             mrows = dict((f, rows) for f, rows in mrows)
+            mtext = m.get("text", {}).get(str(n))
+            mtext = None if not isinstance(mtext, list) else dict((f, bytes(t).decode("utf-8", "replace")) for f, t in mtext)
             for f in order:
                 fi = fidx[f["name"]]
                 text = files[f["name"]]
@@ -177,11 +179,15 @@ def check_case(chk, probe, model, case, moves, ns, rng, dist):
                     chk.oracle_failure(None, "no listing for file %s" % f["name"], dict(replay, n=n))
                     continue
                 chk.count(1, 1 if nontrivial else 0)
-                # ---- tie: model rows, rendered, equal the real listing text
-                want = render_rows(mrows[fi], n, text)
+                # ---- tie: the text rendered by the extracted model (model/Listing.v to_listing_text) is the real listing text
+                want = None if mtext is None else mtext.get(fi)
                 if want != got:
                     chk.tie_break("correspondence:to_listing", "model listing differs from to_listing (n=%d, %s)" % (n, f["name"]),
                                   dict(replay, n=n, file=f["name"], model=want, impl=got))
+                # (the check's own renderer is kept only as a cross-check of the row parser used by the oracle)
+                if render_rows(mrows[fi], n, text) != got:
+                    chk.tie_break("correspondence:render_rows", "the check's row renderer differs from to_listing (n=%d, %s)" % (n, f["name"]),
+                                  dict(replay, n=n, file=f["name"]))
                 # ---- oracle: the spec, evaluated on the implementation's output
                 rows = parse_listing(got, n, text)
                 lines = src_lines(text)
@@ -450,8 +456,8 @@ def run(chk):
     chk.assumptions = ["names of files and segments are abstracted to numbers (injective renaming by the check)",
                        "programs that overwrite their own bytes (pc moved backwards within a segment) are outside the domain "
                        "(no_overwrite hypothesis of the theorems) and are not generated",
-                       "the textual rendering of a row (widths, hex, trim_end) is re-implemented in the check (render_rows) and "
-                       "compared with the real text on every case"]
+                       "the textual rendering of a listing (widths, hex, joins, trim_end) is part of the Coq model "
+                       "(to_listing_text) and compared byte for byte with the real text on every case"]
     return chk.finish(extra_trusted=["checks/c11gen.py: the generator's own account of what each statement emits (independent of mos)",
                                      "harness_c11/mosprobe_c11 (mos-core API: codegen, source_map, segments, to_listing)",
                                      "extract/driver_c11.ml"])
